@@ -1130,3 +1130,112 @@ pub fn t11() -> BoxedStrategy<Value> {
         })
         .boxed()
 }
+
+/// T12: several retired parents release the same child one after the other. B is linked from 2-4
+/// parent nodes that lose their last owner (gap) epochs before the reader arrives, and from 1-2
+/// live cells. The reader loads B (or upgrades a weak pointer to it), a mutator unlinks the live
+/// cells (fresh stamp on B, count still > 0), a collector reclaims the parents: every release but
+/// the last is a non-final decrement by the disposal pass and must not lose the fresh stamp.
+pub fn t12() -> BoxedStrategy<Value> {
+    (
+        0u8..48,
+        (2usize..5, 0u8..5, 0u8..4, 1u8..5, any::<bool>()),
+        (0u8..3, any::<bool>(), 0u8..3, any::<bool>(), 0u8..3),
+    )
+        .prop_map(|(align, (np, gap, settle, k, two_live), (reader_kind, parents_after_read, split, m_pinned, late))| {
+            let (a, r, m) = (0usize, 1usize, 2usize);
+            let mut t = TB::new(3);
+            t.new_node(a, "B", None, None, 3, 63);
+            t.downgrade(a, "B", "wB");
+            t.pin(a);
+            t.clone_rc(a, "B", "Bc");
+            t.store(a, C::Root(1), Some("Bc"), 0);
+            if two_live {
+                t.clone_rc(a, "B", "Bd");
+                t.store(a, C::Root(2), Some("Bd"), 0);
+            }
+            t.wstore(a, WC::Root(0), Some("wB"), 0);
+            t.unpin(a, 0);
+            // the parents; `split` of them are retired only after the reader has arrived
+            let early = np - (split as usize).min(np - 1);
+            for i in 0..np {
+                t.new_node(a, &format!("P{}", i), Some("B"), None, 3, i as u8);
+            }
+            t.drop_rc(a, "B");
+            t.advance(a, settle);
+            for i in 0..early {
+                t.drop_rc(a, &format!("P{}", i));
+            }
+            t.advance(a, 1);
+            t.run(a);
+            t.advance(m, gap);
+            t.run(m);
+            let read = |t: &mut TB| {
+                t.pin(r);
+                match reader_kind {
+                    0 => t.load(r, C::Root(1), 0, "s"),
+                    1 => {
+                        t.wload(r, WC::Root(0), 0, "ws");
+                        t.wupgrade(r, "ws", true, "s");
+                    }
+                    _ => {
+                        t.load(r, C::Root(1), 0, "s0");
+                        t.snap_downgrade(r, "s0", "ws");
+                        t.wupgrade(r, "ws", true, "s");
+                    }
+                }
+                t.run(r);
+            };
+            read(&mut t);
+            if parents_after_read {
+                for i in early..np {
+                    t.drop_rc(a, &format!("P{}", i));
+                }
+                t.advance(a, 1);
+                t.run(a);
+            }
+            // the live links go
+            if m_pinned {
+                t.pin(m);
+            }
+            t.swap_null(m, C::Root(1), "Bm");
+            t.drop_rc(m, "Bm");
+            if two_live {
+                t.swap_null(m, C::Root(2), "Bn");
+                t.drop_rc(m, "Bn");
+            }
+            if m_pinned {
+                t.unpin(m, 0);
+            }
+            t.run(m);
+            if !parents_after_read {
+                for i in early..np {
+                    t.drop_rc(a, &format!("P{}", i));
+                }
+                t.advance(a, 1);
+                t.run(a);
+            }
+            // the collector reclaims the parents while the reader is still inside
+            t.advance(m, k);
+            t.run(m);
+            t.deref_s(r, "s");
+            if late > 0 {
+                t.advance(m, late);
+                t.run(m);
+                t.deref_s(r, "s");
+            }
+            t.counted(r, "s", "Bk");
+            t.deref(r, "Bk");
+            t.unpin(r, 0);
+            t.run(r);
+            t.advance(m, 5);
+            t.run(m);
+            t.deref(r, "Bk");
+            t.drop_rc(r, "Bk");
+            t.run(r);
+            t.advance(m, 6);
+            t.run(m);
+            t.finish(align, "T12")
+        })
+        .boxed()
+}
